@@ -26,6 +26,7 @@ func init() {
 			a.retireOrder("S.retire-order")
 			a.c05NewSession()
 			a.c05Retire()
+			a.freshExponentWriters("W.exponent")
 			a.retireImpliesMove()
 			a.fragmentResetBeforeDispatch("S.fragment-reset")
 		})
